@@ -97,7 +97,17 @@ func init() {
 				}
 				sb.WriteString(s)
 			}
+			if r.Intn(4) == 0 {
+				// the last document ends in a block scalar, and the stream may lack its final line break
+				if nd > 0 {
+					sb.WriteString("---\n")
+				}
+				sb.WriteString("tail:\n  text: " + pickS(r, []string{"|", "|-", "|+", ">", ">-"}) + "\n    first line\n    second line\n")
+			}
 			in := sb.String()
+			if r.Intn(3) == 0 {
+				in = strings.TrimSuffix(in, "\n") // no terminating line break
+			}
 			if hasDupKeys(in) || strings.TrimSpace(in) == "" {
 				continue
 			}
